@@ -2,7 +2,7 @@
 from cfg import Inconclusive, op_place, show, walk, strip_casts
 from common import (atomic_op, calls_to, callee, callee_names, closure_consumer, closure_creations,
                     field_chain, fn_of, find_fn, get_fn, head_sources, is_call_to, ordering_of, peel,
-                    site, uses_of_local, guards_of)
+                    site, uses_of_local, guards_of, canon)
 from props.c09 import classify
 
 PROP = "C08"
@@ -392,42 +392,53 @@ def rule_bucket_race(ctx):
         problems.append("new value is not a fresh Bucket::alloc")
     if atomic_op(t) == "compare_exchange_weak":
         problems.append("compare_exchange_weak may fail spuriously: the fresh bucket would be freed and a null pointer returned")
-    # Ok arm returns the fresh pointer, Err arm deallocs the fresh pointer and returns the found one
-    sw = fn.blocks[t["target"]]["term"]
-    if sw["k"] != "switch":
-        raise Inconclusive("get_or_alloc: CAS result is not matched directly")
-    arms = {v: bb for v, bb in sw["arms"]}
-    okb, errb = arms.get(0), arms.get(1)
-    if okb is None or errb is None:
-        raise Inconclusive("get_or_alloc: match arms not found")
-    # return value per arm
-    def ret_exprs(start):
-        out = []
-        for rb in fn.reach_from(start):
-            for si, s in enumerate(fn.blocks[rb]["stmts"]):
-                if s["k"] == "assign" and s["lhs"]["l"] == 0 and not s["lhs"]["p"]:
-                    out.append(fn.expr_of_rvalue(s["rv"]))
-        return out
-    ro = ret_exprs(okb)
-    re_ = ret_exprs(errb)
-    if ro != [new]:
-        problems.append("winner does not return the pointer it installed: %s" % [show(x) for x in ro])
-    if not (len(re_) == 1 and re_[0][0] == "field" and peel(re_[0][1])[0] in ("downcast",)):
-        problems.append("loser does not return the pointer found in the bucket: %s" % [show(x) for x in re_])
-    de = [(dbi, dt) for dbi, dt in fn.calls(lambda t: callee(t) == "boxcar::Bucket::<T>::dealloc") if dbi in fn.reach_from(errb)]
-    if len(de) != 1:
-        problems.append("loser does not free its own allocation exactly once")
-    else:
-        dt = de[0][1]
-        a0 = fn.expr_of_operand(dt["args"][0])
-        alloc_args = new[2] if new[0] == "call" else ()
-        dargs = tuple(fn.expr_of_operand(a) for a in dt["args"][1:])
-        if a0 != new:
-            problems.append("loser frees %s instead of its own fresh allocation" % show(a0))
-        if dargs != tuple(alloc_args):
-            problems.append("dealloc (len, cols) differ from the alloc (len, cols)")
-    if any(dbi in fn.reach_from(okb) for dbi, dt in fn.calls(lambda t: callee(t) == "boxcar::Bucket::<T>::dealloc")):
-        problems.append("winner arm frees a bucket")
+    # per decision path (match, if-let, early return…): the winner returns the fresh pointer and frees nothing;
+    # the loser frees its own fresh allocation once, with the (len, cols) it was allocated with, and returns the
+    # pointer found in the bucket
+    from cfg import decision_paths
+    cas_id = (bi, t["dest"]["l"])
+    alloc_id = new[4] if new[0] == "call" else None
+    seen_out = set()
+    for conds, res, calls in decision_paths(fn, with_calls=True):
+        outcome = None
+        for d, chosen, allv in conds:
+            if d[0] == "discr" and isinstance(d[1], tuple) and d[1][0] == "call" and d[1][4] == cas_id:
+                if chosen is not None:
+                    outcome = "ok" if chosen == 0 else "err"
+                else:
+                    outcome = "err" if 0 in allv else ("ok" if 1 in allv else None)
+        if outcome is None:
+            if any(c[1] == cas_id for c in calls):
+                problems.append("a path after the CAS does not look at its result")
+            continue
+        seen_out.add(outcome)
+        deallocs = [c for c in calls if c[0] == "boxcar::Bucket::<T>::dealloc"]
+        r = res
+        while r is not None and r[0] in ("ref", "deref", "cast"):
+            r = r[2] if r[0] == "cast" else r[1]
+        if outcome == "ok":
+            if not (r is not None and r[0] == "call" and r[4] == alloc_id):
+                problems.append("winner does not return the pointer it installed: %s" % show(res))
+            if deallocs:
+                problems.append("winner arm frees a bucket")
+        else:
+            found = r is not None and r[0] == "field" and r[2] == "0" and any(x[0] == "call" and x[4] == cas_id for x in walk(r) if x[0] == "call" and len(x) > 4)
+            if not found:
+                problems.append("loser does not return the pointer found in the bucket: %s" % show(res))
+            if len(deallocs) != 1:
+                problems.append("loser does not free its own allocation exactly once")
+            else:
+                dargs = deallocs[0][2]
+                a0 = dargs[0]
+                while a0[0] in ("ref", "deref", "cast"):
+                    a0 = a0[2] if a0[0] == "cast" else a0[1]
+                if not (a0[0] == "call" and a0[4] == alloc_id):
+                    problems.append("loser frees %s instead of its own fresh allocation" % show(dargs[0]))
+                alloc_args = new[2] if new[0] == "call" else ()
+                if tuple(canon(x) for x in dargs[1:]) != tuple(canon(x) for x in alloc_args):
+                    problems.append("dealloc (len, cols) differ from the alloc (len, cols)")
+    if seen_out != {"ok", "err"}:
+        problems.append("the CAS result is not handled for both outcomes (%s)" % sorted(seen_out))
     if problems:
         ctx.violation(key, site(fn, bi), "; ".join(problems))
     else:
@@ -441,17 +452,35 @@ def rule_bucket_race(ctx):
             if not g:
                 ctx.ok(site(wf, cbi), "eager allocation of the next bucket (result unused by design)")
                 continue
-            nullarg = peel(g[0][3][2][0])
+            # the pointer this call returns must be the one the entry is addressed through afterwards: it flows
+            # (through moves, re-assignment of `entries`, the return value of an inlined helper…) into the bucket
+            # pointer argument of a later Bucket::get
+            def call_ids(e, depth=0, seen=None):
+                seen = seen if seen is not None else set()
+                out = set()
+                if not isinstance(e, tuple) or depth > 14:
+                    return out
+                if e[0] == "call":
+                    if len(e) > 4:
+                        out.add(e[4])
+                    return out
+                if e[0] == "local":
+                    if e[1] in seen:
+                        return out
+                    seen.add(e[1])
+                    for _, _, d in wf.def_exprs(e[1]):
+                        out |= call_ids(d, depth + 1, seen)
+                    return out
+                for x in e[1:]:
+                    if isinstance(x, tuple):
+                        out |= call_ids(x, depth + 1, seen)
+                return out
+            my_id = (cbi, ct["dest"]["l"])
             assigned = False
-            if nullarg[0] == "local":
-                gb, gs = g[0][0], g[0][1]
-                region = wf.reach_from(gs)
-                for dbi, dsi, kind, payload in wf.defs.get(nullarg[1], []):
-                    if dbi in region and wf.must_pass(dbi, via_edges=[(gb, gs)]):
-                        for _, _, de in [x for x in wf.def_exprs(nullarg[1]) if x[0] == dbi and x[1] == dsi]:
-                            hs = head_sources(wf, de)
-                            if hs and all(h == VEC + "get_or_alloc" or h.endswith("Atomic::<*mut T>::load") for h in hs):
-                                assigned = True
+            after = wf.reach_from(ct["target"]) if ct["target"] is not None else set()
+            for gbi, gt in wf.calls(lambda t: callee(t) == "boxcar::Bucket::<T>::get"):
+                if gbi in after and my_id in call_ids(wf.expr_of_operand(gt["args"][0])):
+                    assigned = True
             if assigned:
                 ctx.ok(site(wf, cbi), "pointer returned by get_or_alloc replaces the null `entries`")
             else:
